@@ -3,6 +3,8 @@ bundled filters implement their documented predicates."""
 import copy
 import itertools
 
+import collections
+
 from hypothesis import strategies as st
 
 import edzed
@@ -13,7 +15,7 @@ from ..runner import Result
 ID = 'C16'
 LEVEL = 'exploration'
 BUDGET = {"quick": 8000, "thorough": 20000}
-RULE = ("Case kinds: (pipe) pipeline of 0..3 generated filters (new mapping, empty mapping, "
+RULE = ("Case kinds: (pipe) pipeline of 0..3 generated filters (new mapping - dict, UserDict or ChainMap -, a bundled DataEdit step, empty mapping, "
         "in-place edit returning true / the same dict, truthy or falsy non-mapping, non-string "
         "key) on 1..3 sends, executed through Event.send in a running circuit, model = fold; "
         "(edge) complete truth table of Edge: 8 (rise,fall,u_fall) combinations x u_rise in {None,True,False} "
@@ -40,7 +42,8 @@ def val(x):
 
 
 # ---------------------------------------------------------------- strategies
-FKINDS = ['new_add', 'new_del', 'inplace_true', 'inplace_same', 'pass', 'reject', 'empty', 'nonstr']
+FKINDS = ['new_add', 'new_del', 'inplace_true', 'inplace_same', 'pass', 'reject', 'empty', 'nonstr',
+          'new_userdict', 'new_chainmap', 'dataedit']
 PASS_VALUES = [True, 1, 'yes', [0]]
 REJECT_VALUES = [False, None, 0, '', []]
 
@@ -50,6 +53,9 @@ filt = st.one_of(
     st.integers(0, len(REJECT_VALUES) - 1).map(lambda i: ['reject', i]),
     st.just(['nonstr', 0]),
     st.sampled_from(['new_add', 'inplace_true', 'pass']).map(lambda k: [k, 0]),
+    # mutable mappings that are not dicts (the documentation says 'precisely a MutableMapping'),
+    # and a bundled DataEdit step that may receive one
+    st.sampled_from(['new_userdict', 'new_chainmap', 'dataedit', 'dataedit']).map(lambda k: [k, 0]),
 )
 send_data = st.dictionaries(st.sampled_from(['x', 'y', 'value']), st.integers(0, 3), max_size=3)
 pipe_cases = st.builds(
@@ -254,6 +260,12 @@ def exec_pipe(case, res):
                 return {}
             if kind == 'nonstr':
                 return {**data, 1: 'one'}
+            if kind == 'new_userdict':
+                return collections.UserDict({**data, f'k{i}': i})
+            if kind == 'new_chainmap':
+                return collections.ChainMap({f'k{i}': i}, dict(data))
+            if kind == 'dataedit':
+                return edzed.DataEdit.add(**{f'd{i}': i}).setdefault(x=7).copy('x', f'c{i}')(data)
             raise AssertionError(kind)
         f.__name__ = f'f{i}_{kind}'
         return f
@@ -292,8 +304,12 @@ def exec_pipe(case, res):
         outcome = True
         for i, (kind, idx) in enumerate(case['filters']):
             exp_seen.append((i, dict(cur)))
-            if kind == 'new_add':
+            if kind in ('new_add', 'new_userdict', 'new_chainmap'):
                 cur = {**cur, f'k{i}': i}
+            elif kind == 'dataedit':
+                cur = {**cur, f'd{i}': i}
+                cur.setdefault('x', 7)
+                cur[f'c{i}'] = cur['x']
             elif kind == 'new_del':
                 cur = {k: v for k, v in cur.items() if k != 'x'}
             elif kind in ('inplace_true', 'inplace_same'):
@@ -318,7 +334,7 @@ def exec_pipe(case, res):
         if not ready:
             res.fail('C16.simulation_stopped', 'circuit not ready after send')
     kinds = [k for k, _ in case['filters']]
-    edits = any(k in ('new_add', 'new_del', 'inplace_true', 'inplace_same', 'empty') for k in kinds)
+    edits = any(k in ('new_add', 'new_del', 'inplace_true', 'inplace_same', 'empty', 'new_userdict', 'new_chainmap', 'dataedit') for k in kinds)
     res.nontrivial = len(kinds) >= 2 and edits and any(k in ('pass', 'reject', 'nonstr') for k in kinds)
     res.classes = ['pipe', f'pipe/len{len(kinds)}'] + (['pipe/with reject'] if 'reject' in kinds else [])
     res.outcome = {'results': [repr(r[0]) for r in results]}
